@@ -1,9 +1,9 @@
 SPECIFICATION Spec
 CONSTANTS
   MaxGuards = 2
-  MaxActs = 1
+  MaxActs = 2
   Engines = 2
-  RefLevel = "small"
+  RefLevel = "full"
   Places = {"global", "closure", "list", "box", "hash", "cont", "host"}
   Derive = TRUE
   Pair = FALSE
